@@ -727,6 +727,16 @@ def _r17_8c(res, P, cfgname):
         res.anchor("R17.7", cfgname, key)
         return
     ok = False
+    cap_writes = {i for i, j, s in mir.iter_stmts(body) if s["k"] == "as" and any(e.get("n") == "capacity" for e in s["p"].get("p", []))}
+
+    def fresh(read_bb, nb):
+        """no other write of self.capacity lies on a path read_bb ->* nb (the value read is still current)"""
+        fwd = cfg.reach_from(read_bb)
+        for w in cap_writes - {nb}:
+            if w in fwd and w != read_bb and nb in cfg.reach_from(w):
+                return False
+        return True
+    stale = False
     for nb in neg_blocks:
         for sb, blk in enumerate(body["bbs"]):
             t = blk["t"]
@@ -739,16 +749,25 @@ def _r17_8c(res, P, cfgname):
                 tt = body["bbs"][cb]["t"]
                 cp = mir.callee_path(tt) or ""
                 if cp == "core::num::nonzero::NonZero::<T>::get" and "arg1" in sym.term_str(S.operand(tt["a"][0]), 100):
-                    ok = True
+                    if fresh(cb, nb):
+                        ok = True
+                    else:
+                        stale = True
             for i, j, s in mir.iter_stmts(body):
                 if s["k"] == "as" and s["p"]["l"] in locs and s["rv"]["k"] == "use":
                     pl = mir.op_place(s["rv"]["a"])
                     if pl and pl.get("p") and pl["p"][-1].get("k") == "f" and pl["p"][-1].get("i") == 1:
                         base = S.local(pl["l"])
                         if base[0] == 'call' and base[1].endswith("Repr::sign_capacity") and root_of(base[2][0]) == ('arg', 1):
-                            ok = True
+                            rb = next((cb2 for cb2 in calls if (mir.callee_path(body["bbs"][cb2]["t"]) or "").endswith("Repr::sign_capacity")), None)
+                            if rb is None or fresh(rb, nb):
+                                ok = True
+                            else:
+                                stale = True
     if ok:
         res.ok("R17.7", cfgname, key)
+    elif stale:
+        res.fail("R17.7", cfgname, key, "Repr::clone_from decides the final sign flip from a sign/capacity of self that was read *before* another write of self.capacity on the same path (the reallocation stores a positive capacity): the value is stale and the copy gets the wrong sign when a negative destination is reallocated", span_loc(f["sp"]))
     else:
         res.fail("R17.7", cfgname, key, "Repr::clone_from negates `capacity` under a condition that does not read the current sign of self (only the absolute capacity): the copy gets the wrong sign whenever the destination was negative", span_loc(f["sp"]))
 
